@@ -390,7 +390,7 @@ def hostile_designs(ctx, rng, n: int) -> Iterator[Tuple[str, Callable]]:
             yield f"hostile {label}: {cls} at {site}", (lambda d=d: h.to_proto(c02.build_mutant(d).top))
     # ... and C02's histories: sub-modules edited after another parent's elaboration failed late, or after their own succeeded
     for label, base in bases[: max(2, n // 4)]:
-        yield f"hostile history {label}: faults added after a failed / finished elaboration", (lambda label=label, base=base: c02.after_failed_parent(_NullRec(), label, base))
+        yield f"hostile history {label}: faults added after a failed / finished elaboration", (lambda label=label, base=base: c02.after_failed_parent(_NullRec(), label, base, skip=c02.UNGUARDED))  # (those edits: known finding of C02)
 
 
 class _NullRec:
